@@ -380,19 +380,19 @@ pub fn transplant_mutations(base: &Base, donor: &Base, tag: &str) -> Vec<Mutatio
                     bytes.extend_from_slice(&base.seg[base.parsed.recs[j].range.clone()]);
                 }
             }
-            out.push(seg(format!("transplant-{tag}transaction-{class}"), json!({"donor_transaction": k, "how": "replace-same-position"}), bytes));
+            out.push(seg(format!("transplant-transaction-replace-{class}"), json!({"donor_transaction": k, "how": "replace-same-position", "donor": if tag.is_empty() { "unrelated log" } else { "sibling log" }}), bytes));
         }
         // append
         let mut bytes = base.seg.clone();
         bytes.extend_from_slice(&dbytes);
-        out.push(seg(format!("transplant-{tag}transaction-{class}"), json!({"donor_transaction": k, "how": "append"}), bytes));
+        out.push(seg(format!("transplant-transaction-append-{class}"), json!({"donor_transaction": k, "how": "append", "donor": if tag.is_empty() { "unrelated log" } else { "sibling log" }}), bytes));
         // insert before the last base transaction
         if let Some(last) = base.txs.last() {
             let at = base.parsed.recs[last.frames[0]].range.start;
             let mut bytes = base.seg[..at].to_vec();
             bytes.extend_from_slice(&dbytes);
             bytes.extend_from_slice(&base.seg[at..]);
-            out.push(seg(format!("transplant-{tag}transaction-{class}"), json!({"donor_transaction": k, "how": "insert-before-last"}), bytes));
+            out.push(seg(format!("transplant-transaction-insert-{class}"), json!({"donor_transaction": k, "how": "insert-before-last", "donor": if tag.is_empty() { "unrelated log" } else { "sibling log" }}), bytes));
         }
     }
     out
@@ -1026,6 +1026,7 @@ pub fn run(args: &Args) -> i32 {
                     amount: if i == 0 { first_amount } else { 100 + u32::from(i) },
                     parents: vec![],
                     fake_parent: None,
+                    decline: false,
                 })
                 .collect(),
             ops: vec![
